@@ -315,17 +315,17 @@ def selftest():
 
 
 core.register("C09", [
-    Facet("rigid_functor", rigid_cases, check_rigid, n_quick=800,
+    Facet("rigid_functor", rigid_cases, check_rigid, n_quick=1600,
           shards_quick=8, rule=RULE),
-    Facet("snaky_invariance", snaky_cases, check_snaky, n_quick=300,
+    Facet("snaky_invariance", snaky_cases, check_snaky, n_quick=800,
           shards_quick=4, rule="rigid diagrams with inserted zig-zags (C07 "
           "generator): the functor's value is unchanged by normal_form"),
-    Facet("multi_axis", multi_axis_cases, check_multi_axis, n_quick=400,
+    Facet("multi_axis", multi_axis_cases, check_multi_axis, n_quick=1200,
           shards_quick=4, rule="boxes, daggered boxes and swaps with atomic "
           "types sent to dimensions with 0-2 axes; reference evaluation of "
           "the axis-expanded diagram; non-trivial = a swap over a type with "
           ">= 2 axes"),
-    Facet("tensor_diagrams", tensor_cases, check_tensor, n_quick=500,
+    Facet("tensor_diagrams", tensor_cases, check_tensor, n_quick=1200,
           shards_quick=4, rule="tensor diagrams with boxes, daggered boxes, "
           "swaps, spiders, bubbles (elementwise functions) and sums: eval, "
           "identity-on-arrays functor and reference evaluator agree"),
